@@ -1836,23 +1836,25 @@ fn core_word_map_end(xs: &mut State) -> Xresult {
 fn core_word_insert(xs: &mut State) -> Xresult {
     let key = xs.pop_data()?;
     let val = xs.pop_data()?;
-    match xs.pop_data()? {
-        Cell::Map(mut m) => {
-            m.insert_mut(key, val);
+    let map = xs.pop_data()?;
+    match map.value() {
+        Cell::Map(m) => {
+            let m = m.insert(key, val);
             xs.push_data(Cell::Map(m))
         }
-        other => Err(Xerr::type_not_supported(other))
+        _ => Err(Xerr::type_not_supported(map))
     }
 }
 
 fn core_word_remove(xs: &mut State) -> Xresult {
     let key = xs.pop_data()?;
-    match xs.pop_data()? {
-        Cell::Map(mut s) => {
-            s.remove_mut(&key);
+    let map = xs.pop_data()?;
+    match map.value() {
+        Cell::Map(s) => {
+            let s = s.remove(&key);
             xs.push_data(Cell::Map(s))
         }
-        other => Err(Xerr::type_not_supported(other))
+        _ => Err(Xerr::type_not_supported(map))
     }
 }
 
@@ -2408,7 +2410,8 @@ fn core_word_nth(xs: &mut State) -> Xresult {
 
 fn core_word_get(xs: &mut State) -> Xresult {
     let key = xs.pop_data()?;
-    match xs.pop_data()? {
+    let coll = xs.pop_data()?;
+    match coll.value() {
         Cell::Vector(v) => {
             //fixme: remove Vector support?
             let idx = key.to_usize()?;
@@ -2420,7 +2423,7 @@ fn core_word_get(xs: &mut State) -> Xresult {
             let val = m.get(&key).unwrap_or_else(|| &NIL);
             xs.push_data(val.clone())
         }
-        other => Err(Xerr::type_not_supported(other)),
+        _ => Err(Xerr::type_not_supported(coll)),
     }
 }
 
